@@ -35,14 +35,21 @@ impl Run {
 
     // Copy all current state into the file.
     pub(crate) fn save(&mut self) -> Result<(), MonorailError> {
+        // Write a sibling file and rename it over the target, so that a crash
+        // leaves either the previous or the new contents, never a truncated file.
+        let data = serde_json::to_vec(self)?;
+        let mut tmp_name = self.path.as_os_str().to_owned();
+        tmp_name.push(".tmp");
+        let tmp_path = path::PathBuf::from(tmp_name);
         let mut file = fs::OpenOptions::new()
             .write(true)
             .truncate(true)
             .create(true)
-            .open(&self.path)?;
-
-        let data = serde_json::to_vec(self)?;
+            .open(&tmp_path)?;
         file.write_all(&data)?;
+        file.sync_all()?;
+        drop(file);
+        fs::rename(&tmp_path, &self.path)?;
         Ok(())
     }
 }
